@@ -259,7 +259,9 @@ func janitorMode(a map[string]string) {
 			if iv > 0 {
 				want = 1
 			}
-			if started != want {
+			// no background activity may be started for an interval <= 0; for a positive interval what counts is the
+			// behaviour checked below (how the janitor is implemented - goroutine or timers - is not the property's business)
+			if started > want {
 				bad++
 				fmt.Printf("BAD-janitor-start %s interval=%d: %d goroutine(s) started, want %d\n", ct.name, iv, started, want)
 			}
@@ -372,6 +374,58 @@ func janitorMode(a map[string]string) {
 			fmt.Printf("BAD-janitor-reload %s: an entry stored with a TTL by the evicted callback was not collected by the janitor in 5 s (first=%d second=%d count=%d, want 1 1 0)\n", ct.name, atomic.LoadInt64(&first), atomic.LoadInt64(&second), c.Count())
 		} else {
 			fmt.Printf("janitor %s reload-on-eviction ok\n", ct.name)
+		}
+	}
+	// a cache dropped while its janitor is in the middle of a pass (inside the evicted callback): once the pass is
+	// over the janitor must stop and the contents must become collectable
+	for _, ct := range ctors {
+		gate := make(chan struct{})
+		entered := make(chan struct{}, 1)
+		finalized := make(chan struct{})
+		func() {
+			var c cacheAPI
+			c = ct.mk(10*time.Second, func(k string, v interface{}) {
+				if k == "first" {
+					select {
+					case entered <- struct{}{}:
+					default:
+					}
+					<-gate
+				}
+			})
+			payload := new([1 << 16]byte)
+			runtime.SetFinalizer(payload, func(*[1 << 16]byte) { close(finalized) })
+			c.Set("big", payload, time.Hour)
+			c.Set("first", 1, time.Millisecond)
+			select {
+			case <-entered:
+			case <-time.After(5 * time.Second):
+				bad++
+				fmt.Printf("BAD-janitor-drop %s: the janitor never reached the callback\n", ct.name)
+			}
+		}() // the cache and the payload are unreachable from here on, the janitor is parked inside its pass
+		for i := 0; i < 4; i++ {
+			runtime.GC()
+			time.Sleep(10 * time.Millisecond)
+		}
+		close(gate)
+		ok := false
+		for w := 0; w < 100; w++ { // up to 5 s
+			runtime.GC()
+			select {
+			case <-finalized:
+				ok = true
+			case <-time.After(50 * time.Millisecond):
+			}
+			if ok {
+				break
+			}
+		}
+		if !ok {
+			bad++
+			fmt.Printf("BAD-janitor-drop %s: a cache dropped while its janitor was inside a pass is kept alive (its contents were not collected within 5 s)\n", ct.name)
+		} else {
+			fmt.Printf("janitor %s dropped during a pass: collected\n", ct.name)
 		}
 	}
 	// leak check: create and drop caches (with entries and callbacks, janitor on and off, interleaved), collect
